@@ -99,6 +99,45 @@ def corr(ctx):
             except ValueError: impl = ['err', 'ValueError']
             rec('unnest_transform', [x, y, w, h, vb, par, own], impl, m.call('unnest_transform', [x, y, w, h, list(vb) if vb else None, par, list(own) if own else None]), vb is not None)
         if len(stats['disagreements']) >= 10: break
+    # flattening (model/Flatten.v): bare groups are dissolved, groups with opacity 0.5 and two leaves of their own are kept;
+    # leaves are numbered by their fill.  The implementation's result must be the model's forest, leaf for leaf, group for group.
+    from picosvg import svg as psvg
+    def rnd_ftree(depth):
+        if depth >= 3 or rng.random() < 0.35: return next_leaf()
+        d = rng.random() < 0.6
+        kids = [rnd_ftree(depth + 1) for _ in range(rng.randint(0 if d else 1, 3))]
+        if not d: kids = [next_leaf()] + kids + [next_leaf()]
+        return [d, kids]
+    def to_xml(t):
+        if not isinstance(t, list): return f'<path d="M{t},0 L{t + 1},0 L{t + 1},2 Z" fill="#{t:06x}"/>'
+        return ('<g>' if t[0] else '<g opacity="0.5">') + ''.join(to_xml(k) for k in t[1]) + '</g>'
+    def of_el(e):
+        if etree.QName(e).localname == 'path': return int(e.get('fill')[1:], 16)
+        return [False, [of_el(k) for k in e]]
+    for i in range(ctx.n(150, 2500)):
+        counter = [0]
+        def next_leaf():
+            counter[0] += 1; return counter[0]
+        t = [True, [rnd_ftree(0) for _ in range(rng.randint(1, 3))]]
+        doc = '<svg xmlns="http://www.w3.org/2000/svg" viewBox="0 0 100 100">' + to_xml(t) + '</svg>'
+        try:
+            out = SVG.fromstring(doc).topicosvg().toetree()
+            impl = [of_el(e) for e in out if etree.QName(e).localname != 'defs']
+        except Exception as ex: impl = 'raised ' + repr(ex)[:100]
+        mod = m.call('flatten', t)
+        rec('flatten', t, impl, mod, counter[0] >= 3)
+        if len(stats['disagreements']) >= 10: break
+    # one dissolution step: _replace_el(group, its children) among siblings
+    for i in range(ctx.n(100, 1500)):
+        n1, n2, nk = rng.randint(0, 3), rng.randint(0, 3), rng.randint(0, 3)
+        ids = iter(range(1, 20))
+        before = [next(ids) for _ in range(n1)]; kids = [next(ids) for _ in range(nk)]; after = [next(ids) for _ in range(n2)]
+        root = etree.fromstring('<svg xmlns="http://www.w3.org/2000/svg">' + ''.join(f'<path id="p{j}"/>' for j in before) + '<g>' + ''.join(f'<path id="p{j}"/>' for j in kids) + '</g>' + ''.join(f'<path id="p{j}"/>' for j in after) + '</svg>')
+        g = root[n1]
+        psvg._replace_el(g, list(g))
+        impl = [int(e.get('id')[1:]) for e in root]
+        mod = m.call('replace_el', [before, [True, kids], after])
+        rec('replace_el', [before, kids, after], impl, mod, nk >= 1 and n1 + n2 >= 1)
     return stats
 
 # ---------------------------------------------------------------- structural documents for the rendering judge
